@@ -30,6 +30,7 @@ func init() {
 	domains["C06"] = func(seed int64, tier string, sc *Script) map[string]any { return runOci("C06", seed, tier, sc) }
 	domains["C08"] = func(seed int64, tier string, sc *Script) map[string]any { return runOci("C08", seed, tier, sc) }
 	domains["C09"] = func(seed int64, tier string, sc *Script) map[string]any { return runOci("C09", seed, tier, sc) }
+	domains["C07o"] = func(seed int64, tier string, sc *Script) map[string]any { return runOci("C07", seed, tier, sc) }
 }
 
 func ociErr(err error) string {
@@ -243,9 +244,9 @@ func runOci(mode string, seed int64, tier string, sc *Script) map[string]any {
 		panic(err)
 	}
 	defer os.RemoveAll(tmp)
-	cases, steps := 60, 30
+	cases, steps := 160, 30
 	if tier == "thorough" {
-		cases, steps = 1500, 60
+		cases, steps = 2500, 60
 	}
 	ops := 0
 	for ci := 0; ci < cases; ci++ {
@@ -261,6 +262,26 @@ func runOci(mode string, seed int64, tier string, sc *Script) map[string]any {
 			if rng.Intn(5) == 0 {
 				autogc = 0
 			}
+		case "C07":
+			autogc = rng.Intn(2)
+		}
+		// operation mix: C08/C09/C07 lean towards tags, GC and reopening
+		gcLo, reopenLo := 90, 95
+		if mode == "C09" || mode == "C07" {
+			gcLo, reopenLo = 88, 94
+		}
+		// callers commonly keep one descriptor value (and hence one annotations map) per
+		// manifest and tag it under several names
+		annMaps := map[[2]int]map[string]string{}
+		annOf := func(n, ann int) map[string]string {
+			if ann == 0 {
+				return nil
+			}
+			k := [2]int{n, ann}
+			if annMaps[k] == nil {
+				annMaps[k] = map[string]string{"verif.ann": fmt.Sprintf("a%d", ann)}
+			}
+			return annMaps[k]
 		}
 		sc.Case(fmt.Sprintf("oci-history autosave=%d autogc=%d", autosave, autogc))
 		sc.NonTrivial()
@@ -320,9 +341,7 @@ func runOci(mode string, seed int64, tier string, sc *Script) map[string]any {
 			case r < 45:
 				ann := rng.Intn(3)
 				d := node.Desc
-				if ann > 0 {
-					d.Annotations = map[string]string{"verif.ann": fmt.Sprintf("a%d", ann)}
-				}
+				d.Annotations = annOf(n, ann)
 				ref := randRef()
 				if strings.HasPrefix(ref, "d") && ref != fmt.Sprintf("d%d", n) {
 					ref = fmt.Sprintf("t%d", rng.Intn(4)) // a reference is never another node's digest
@@ -330,6 +349,13 @@ func runOci(mode string, seed int64, tier string, sc *Script) map[string]any {
 				err := c.store.Tag(ctx, d, c.refString(ref))
 				sc.Op(ociErr(err), "o tag %d ann=%d ref=%s", n, ann, ref)
 				sc.Count("op:tag")
+				// the same descriptor value under further names
+				for rng.Intn(3) == 0 {
+					ref2 := fmt.Sprintf("t%d", rng.Intn(4))
+					err := c.store.Tag(ctx, d, c.refString(ref2))
+					sc.Op(ociErr(err), "o tag %d ann=%d ref=%s", n, ann, ref2)
+					sc.Count("op:tag-again")
+				}
 			case r < 52:
 				ref := randRef()
 				err := c.store.Untag(ctx, c.refString(ref))
@@ -344,6 +370,13 @@ func runOci(mode string, seed int64, tier string, sc *Script) map[string]any {
 			case r < 74:
 				l := []string{"-", "0", "1", "2"}[rng.Intn(4)]
 				sc.Op(c.runQuery(c.store, []string{"tags", "last=" + l}), "o tags last=%s", l)
+			case r >= 74 && r < 77 && mode != "C06" && mode != "C09":
+				// an external tool rewrites the layout: it keeps a link-closed part of the
+				// content and lists only the roots it chose in index.json
+				if !c.foreignRewrite(rng, annOf, autosave == 1, autogc == 1) {
+					continue
+				}
+				queries("o ", c.store)
 			case r < 86:
 				if mode == "C06" && rng.Intn(2) == 0 {
 					continue
@@ -356,7 +389,7 @@ func runOci(mode string, seed int64, tier string, sc *Script) map[string]any {
 					sc.Op(b, "o blobs")
 				}
 				queries("o ", c.store)
-			case r < 90:
+			case r < gcLo:
 				if mode == "C06" {
 					continue
 				}
@@ -369,7 +402,7 @@ func runOci(mode string, seed int64, tier string, sc *Script) map[string]any {
 				if err := os.WriteFile(p, data, 0o444); err == nil {
 					sc.Def("o stray %d", id)
 				}
-			case r < 95:
+			case r < reopenLo:
 				if mode == "C06" {
 					continue
 				}
@@ -462,4 +495,101 @@ func runOci(mode string, seed int64, tier string, sc *Script) map[string]any {
 	}
 	sc.Extra["evaluations"] = ops
 	return nil
+}
+
+// foreignRewrite simulates another tool (or an operator) rewriting the layout on disk: a
+// link-closed subset of the stored content is kept, index.json lists only chosen roots
+// (with or without reference names), and the directory is opened afresh.
+func (c *ociCase) foreignRewrite(rng *rand.Rand, annOf func(n, ann int) map[string]string, autosave, autogc bool) bool {
+	onDisk := map[int]bool{}
+	var cands []int
+	for _, n := range c.u.Nodes {
+		if _, err := os.Stat(filepath.Join(c.dir, "blobs", n.Desc.Digest.Algorithm().String(), n.Desc.Digest.Encoded())); err == nil {
+			onDisk[n.ID] = true
+			if n.Kind.IsManifest() || rng.Intn(4) == 0 {
+				cands = append(cands, n.ID)
+			}
+		}
+	}
+	if len(cands) == 0 {
+		return false
+	}
+	rng.Shuffle(len(cands), func(i, j int) { cands[i], cands[j] = cands[j], cands[i] })
+	roots := cands[:1+rng.Intn(min(3, len(cands)))]
+	keep := map[int]bool{}
+	var walk func(int)
+	walk = func(n int) {
+		if keep[n] || !onDisk[n] {
+			return
+		}
+		keep[n] = true
+		for _, k := range c.u.Nodes[n].Succ {
+			walk(k)
+		}
+	}
+	for _, r := range roots {
+		walk(r)
+	}
+	// everything else in blobs/ goes (including files the store never knew)
+	filepath.WalkDir(filepath.Join(c.dir, "blobs"), func(p string, d os.DirEntry, err error) error {
+		if err != nil || d.IsDir() {
+			return nil
+		}
+		for id := range keep {
+			if c.u.Nodes[id].Desc.Digest.Encoded() == d.Name() {
+				return nil
+			}
+		}
+		os.Remove(p)
+		return nil
+	})
+	idx := ocispec.Index{MediaType: ocispec.MediaTypeImageIndex, Manifests: []ocispec.Descriptor{}}
+	idx.SchemaVersion = 2
+	var entries []string
+	for _, r := range roots {
+		ann := rng.Intn(3)
+		names := []string{"-"}
+		switch rng.Intn(4) {
+		case 0, 1:
+			names = []string{fmt.Sprint(rng.Intn(4))}
+		case 2:
+			names = []string{fmt.Sprint(rng.Intn(4)), fmt.Sprint(rng.Intn(4))}
+		}
+		for _, nm := range names {
+			d := c.u.Nodes[r].Desc
+			d.Annotations = map[string]string{}
+			for k, v := range annOf(r, ann) {
+				d.Annotations[k] = v
+			}
+			if nm != "-" {
+				d.Annotations[ocispec.AnnotationRefName] = "tag" + nm
+			}
+			if len(d.Annotations) == 0 {
+				d.Annotations = nil
+			}
+			idx.Manifests = append(idx.Manifests, d)
+			entries = append(entries, fmt.Sprintf("%d:%s:%d", r, nm, ann))
+		}
+	}
+	b, err := json.Marshal(idx)
+	if err != nil {
+		panic(err)
+	}
+	if err := os.WriteFile(filepath.Join(c.dir, "index.json"), b, 0o644); err != nil {
+		panic(err)
+	}
+	s2, err := oci.New(c.dir)
+	if err != nil {
+		panic(err)
+	}
+	s2.AutoSaveIndex = autosave
+	s2.AutoGC = autogc
+	c.store = s2
+	var ks []int
+	for id := range keep {
+		ks = append(ks, id)
+	}
+	c.sc.Op("ok", "o foreign keep=%s entries=%s", fmtSet(ks), strings.Join(entries, ","))
+	c.sc.Count("op:foreign-index")
+	return true
 }
